@@ -267,7 +267,8 @@ __strpd_card(struct strpd_s *d, const char *sp, struct dt_spec_s s, char **ep)
 		res = 0 - (d->y < 0);
 		break;
 	case DT_SPFL_N_MON:
-		d->m = strtoi_lim(sp, &sp, 0, GREG_MONTHS_P_YEAR);
+		/* like the day, the month may have been printed space padded */
+		d->m = padstrtoi_lim(sp, &sp, 0, GREG_MONTHS_P_YEAR);
 		res = 0 - (d->m < 0);
 		break;
 	case DT_SPFL_N_DCNT_MON:
